@@ -27,7 +27,7 @@ CustNames == {"XA", "XB"}                  \* custom headers
 \* every standard request header of the framework's table (minus the framing/connection ones), by registered name
 AllStd    == {"Accept", "Accept-Encoding", "Accept-Language", "Access-Control-Request-Headers", "Access-Control-Request-Method", "Authorization", "Cache-Control", "Content-Disposition", "Content-Encoding", "Content-Language", "Content-Location", "Date", "Forwarded", "From", "Host", "If-Match", "If-Modified-Since", "If-None-Match", "If-Range", "If-Unmodified-Since", "Link", "Max-Forwards", "Origin", "Proxy-Authorization", "Range", "Referer", "Sec-Fetch-Dest", "Sec-Fetch-Mode", "Sec-Fetch-Site", "Sec-Fetch-User", "Sec-WebSocket-Extensions", "Sec-WebSocket-Key", "Sec-WebSocket-Protocol", "Sec-WebSocket-Version", "TE", "Trailer", "User-Agent", "Upgrade-Insecure-Requests", "Via"}
 Cases     == {"canon", "lower", "upper", "mixed"}
-HVals     == {"v1", "v2", "vl", "vs"}      \* short, other, long (200 bytes), with inner spaces and ; =
+HVals     == {"v1", "v2", "vl", "vs", "v0"} \* short, other, long (200 bytes), with inner spaces and ; =, empty (`Name: ` CRLF)
 BodySizes == {"small", "fill", "over", "big"}   \* 5 bytes; exactly the rest of the 1 KiB buffer; rest + 300; 3000
 Faults    == {"none",
               "trunc-method", "trunc-target", "trunc-version", "trunc-header-name", "trunc-header-value", "trunc-before-blank-line",
@@ -59,7 +59,8 @@ VARIABLE r
 \* header lines: every name in several cases, repeated names (same and different case), long and spaced values
 HLines == {<<"Host", "canon", "v1">>, <<"Host", "lower", "v2">>, <<"Accept", "mixed", "v1">>, <<"Accept", "upper", "v2">>,
            <<"Accept", "canon", "vl">>, <<"CT", "canon", "vs">>, <<"CT", "mixed", "v1">>,
-           <<"XA", "canon", "v1">>, <<"XA", "canon", "v2">>, <<"XA", "lower", "v2">>, <<"XB", "mixed", "vl">>, <<"XB", "upper", "vs">>}
+           <<"XA", "canon", "v1">>, <<"XA", "canon", "v2">>, <<"XA", "lower", "v2">>, <<"XB", "mixed", "vl">>, <<"XB", "upper", "vs">>,
+           <<"XB", "canon", "v0">>, <<"Accept", "lower", "v0">>}
 F(fams) == FAMILY = "all" \/ FAMILY \in fams
 Init == r = Empty
 
